@@ -46,7 +46,27 @@ def rnd(x, ok):
     return [int(t) if f else 0 for t, f in zip(r.ravel().tolist() if r.ndim else [float(r)], fin.ravel().tolist() if fin.ndim else [bool(fin)])]
 
 
+class ByName:
+    """view of a breeding-value matrix with its traits put in the order t0..t3 BY NAME (a matrix built from a data frame lists the
+    traits in the order of the frame's columns; every value must still stand under its own trait name)"""
+    def __init__(self, o):
+        names = [str(x) for x in o.trait] if o.trait is not None else ["t%d" % r for r in range(NT)]
+        self.o = o; self.ix = [names.index("t%d" % r) if ("t%d" % r) in names else r for r in range(NT)]
+
+    def __getattr__(self, k):
+        v = getattr(self.o, k)
+        if k in ("location", "scale"):
+            return np.asarray(v)[self.ix]
+        if k in ("unscale",):
+            return lambda *a, **kw: np.asarray(v(*a, **kw))[:, self.ix]
+        if k in ("tmax", "tmin", "trange", "tmean", "tvar", "tstd", "targmax", "targmin"):
+            return lambda *a, **kw: np.asarray(v(*a, **kw))[self.ix]
+        return v
+
+
 def project(obj):
+    if obj.trait is not None and [str(x) for x in obj.trait] != ["t%d" % r for r in range(NT)]:
+        obj = ByName(obj)
     with np.errstate(all="ignore"):
         un = np.asarray(obj.unscale(), dtype=float)
         n = un.shape[0]
@@ -137,6 +157,25 @@ def run(ctx):
             out.append({"id": len(out) + 1, "cls": clsname, "qual": cls.from_numpy.__qualname__, "op": "construct", "form": "classmethod",
                         "mut": False, "ix": [], "del": [], "pos": [], "blk": [], "pre": ids0, "post": project(cur), "err": None,
                         "tab": TABLE})
+            if h < 4:
+                # the same raw values handed over as a DATA FRAME whose columns stand in another order, with the trait columns
+                # inferred or named explicitly (in the frame's order or in another one): every value under its own trait name
+                import pandas
+                raw = raw_rows(ids0)
+                cols = {"taxa": [TABLE["name"][i] for i in ids0], "taxa_grp": [TABLE["grp"][i] for i in ids0]}
+                for r in range(NT):
+                    cols["t%d" % r] = raw[:, r]
+                order = list(cols); rng.shuffle(order)
+                df = pandas.DataFrame({k: cols[k] for k in order})
+                tnames = [k for k in order if k.startswith("t") and k[1:].isdigit()]
+                req = ["infer", list(tnames), sorted(tnames), sorted(tnames, reverse=True)][h % 4]
+                c0 = {"id": len(out) + 1, "cls": clsname, "qual": cls.from_pandas.__qualname__, "op": "construct", "form": "classmethod:trait_cols=%s" % ("infer" if req == "infer" else "explicit"),
+                      "mut": False, "ix": [], "del": [], "pos": [], "blk": [], "pre": ids0, "err": None, "tab": TABLE}
+                try:
+                    c0["post"] = project(cls.from_pandas(df, trait_cols=req))
+                except Exception as e:
+                    c0["err"] = "%s: %s" % (type(e).__name__, str(e)[:200]); c0["post"] = project(cur)
+                out.append(c0)
             for step in range(12 if thorough else 9):
                 pre = project(cur)
                 if -1 in pre["ids"] or not pre["ids"]:
